@@ -489,10 +489,10 @@ def validBasis (vects : M3 K) (hkl : IV) (L : M3 Int) (cut : Cut) (nOpt : Option
     let dnn : K := ((td - tn : Int) : K)
     let one : K := ((td : Int) : K)
     if !(inRange n a && decide (inPlane vects pn a)) then "0 a-not-a-candidate-in-plane"
-    else if !(decide (m2 a < bound)) then "0 a-not-below-initial-bound"
+    else if !(decide (m2 a * one < bound * up)) then "0 a-not-below-initial-bound"
     else if cands.any (fun v => decide (inPlane vects pn v) && decide (m2 v * up < m2 a * one)) then "0 a-not-shortest"
     else if gcd3 c ≠ 1 then "0 c-not-reduced"
-    else if !(cands.any (fun v => decide (towardNormal vects pn v) && reduceGcd v == c)) then "0 c-not-from-candidate"
+    else if !(cands.any (fun v => decide (towardNormal vects pn v) && decide (reduceGcd v = c))) then "0 c-not-from-candidate"
     else if cands.any (fun v => decide (towardNormal vects pn v) &&
         decide (dn c * dn c * m2 v * one < dn v * dn v * m2 c * dnn)) then "0 c-not-closest-to-normal"
     else
